@@ -19,7 +19,7 @@ def eval_line(src, names_entries='', budget=3000, rng=1, probes='', hostfns=True
 
 
 # ------------------------------------------------------------------ container op sequences (C14, C03)
-LIST_KEYS = ['0', '1', '-1', '2', '1.5', '-2', '7', '-9', 'True', '"0"', 'None', '0.0', '10000', '9999', '-10001']
+LIST_KEYS = ['0', '1', '-1', '2', '1.5', '-2', '7', '-9', 'True', '"0"', 'None', '0.0', '10000', '9999', '-10001', '-0.5', '-1.5', '-2.5', '0.9', '-0.0']
 DICT_KEYS = ['"a"', '"b"', '0', '1', '1.0', '-1', 'True', 'None', '"1"', '"None"', '1.50']
 VALS = ['5', '"v"', '[1]', 'None', '0.5', '{"z": 1}']
 
@@ -165,7 +165,11 @@ def num_cases(seed, n):
             src = r.choice(['a * b', 'a / b', '-a', 'abs(a)', 'a < b', 'a == b', 'a ** 2', 'a * b * n', 'a * 10', 'a / 1000', 'round(a)', 'a *= b; a'])
         else:
             src = num_expr(r, 0, ('a', 'b', 'n'))
-        cases.append((eval_line(src, ent, hostfns=False), src))
+        if r.random() < 0.03:
+            src = f'try_apply(w => float({r.choice(['"1,5"', '"abc"', '"1.5x"', '"--2"', '""'])}), 0); ' + src
+            cases.append((eval_line(src, ent, hostfns=True, modelparser=True), src))
+        else:
+            cases.append((eval_line(src, ent, hostfns=False, modelparser=True), src))
     return cases
 
 
@@ -380,10 +384,13 @@ def rand_cases(seed, n):
             src = 'rand()'
         elif k == 4:
             src = 'x = rand(hl); [x, hl]'
+        elif k == 5 and r.random() < 0.5:
+            src = r.choice(['push(shuffle(hl), 99); hl', '[shuffle(hl), hl]', 'x = [shuffle(hl), hl, rand(hl)]; hl.push(7); [x, hl]',
+                            'shuffle(hl) | push(1); [hl, shuffle([]), shuffle([5])]'])
         else:
             src = 's = shuffle(hl); [s, hl]'
         ent = f'(S:{hx("ha")} I:{a}) (S:{hx("hb")} {r.choice(["I:" + str(b), dec_atom(str(b)) if b >= 0 else "I:" + str(b)])}) ' \
-              f'(S:{hx("hl")} (L 1' + ''.join(f' I:{j}' for j in range(r.choice([1, 2, 3, 5, 8]))) + '))'
+              f'(S:{hx("hl")} (L 1' + ''.join(f' I:{j}' for j in range(r.choice([0, 1, 1, 2, 3, 5, 8]))) + '))'
         cases.append((eval_line(src, ent, rng=r.randrange(1, 2 ** 40), hostfns=False), src))
     return cases
 
